@@ -32,7 +32,7 @@ func main() {
 		if *only != "" && s.Name != *only {
 			continue
 		}
-		if *only == "" && !strings.EqualFold(s.Property, *prop) {
+		if *only == "" && *prop != "all" && !strings.EqualFold(s.Property, *prop) {
 			continue
 		}
 		reports = append(reports, runSuite(s, *tier, *seed, *driver))
